@@ -1,5 +1,6 @@
 import RedoModel.Lemmas.Deps
 import RedoModel.Props.C09b
+import RedoModel.Props.C12b
 /-!
 # C12 — Dependency cycles end in an error, never in a hang
 Property theorems only.  Model: `RedoModel/Deps.lean`.  Every function of the model is total
